@@ -98,7 +98,7 @@ def actuator_scripts():
     return out
 
 
-LCD_DECLS = {"parallel": "d = LCD(rs=22, en=23, d4=24, d5=25, d6=26, d7=27)", "i2c": "d = LCD(i2c_addr=0x27)", "8x2": "d = LCD(i2c_addr=0x3F, cols=8, rows=2)",
+LCD_DECLS = {"parallel": "d = LCD(rs=22, en=23, d4=24, d5=25, d6=26, d7=27)", "i2c": "d = LCD(i2c_addr=0x27)", "8x2": "d = LCD(i2c_addr=0x3F, cols=8, rows=2)", "40x2": "d = LCD(i2c_addr=0x26, cols=40, rows=2)", "24x2": "d = LCD(rs=22, en=23, d4=24, d5=25, d6=26, d7=27, cols=24, rows=2)",
              "20x4": "d = LCD(rs=22, en=23, d4=24, d5=25, d6=26, d7=27, cols=20, rows=4)"}
 LCD_COMMANDS = {
     "write": ["d.write(0, 0, 'hello')", "d.write(3, 1, 'abc')", "d.write(0, 0, 'xy', align='right')", "d.write(2, 1, 'mid', align='center')", "d.write(0, 1, 'Q', align='Center')",
@@ -111,6 +111,8 @@ LCD_COMMANDS = {
                 "d.message(top='t2', bottom='b2', clear_rows=True)"],
     "quotes-and-backslashes": ["d.line(0, 'Say \"hi\" to everyone')", "d.line(1, 'a\\\\b\\\\c\\\\d\\\\e\\\\f\\\\g\\\\h\\\\i')", "d.write(2, 0, '\"\"\"\"\"\"\"\"\"\"\"\"\"\"\"\"\"\"\"\"')", "d.line(1, 'x\"y', align='right')",
                                "d.write(0, 1, 'tab\\there', align='center')", "d.message('\"top\"', 'it\\'s')"],
+    "long-rows-cleared-by-short-texts": ["d.line(0, '0123456789012345678901234567890123456789')", "d.line(0, 'short')", "d.write(0, 1, 'abcdefghijklmnopqrstuvwxyzABCDEFGHIJKLMN', clear_row=False)", "d.write(3, 1, 'x')",
+                                         "d.message('0123456789012345678901234567', 'abcdefghijklmnopqrstuvwxyzAB')", "d.message('t', 'b')"],
     "clear-and-write": ["d.write(0, 0, 'abc')", "d.clear()", "d.write(1, 1, 'z')", "d.line(0, 'full')", "d.clear()"],
     # value * width is a multiple of max_value in every call: the property demands identical bars exactly there
     "progress": ["d.progress(0, 50)", "d.progress(1, 50, 200)", "d.progress(1, 150, max_value=200)", "d.progress(0, 5, 10, width=8)", "d.progress(1, 100, style='hash')", "d.progress(0, 3, 4, label='L')",
